@@ -765,6 +765,7 @@ type qQuery struct {
 	Ordered bool // ORDER BY is total: compare in order
 	Limit   bool
 	Tables  []*qTable
+	Shape   string // names a shape that triage tied to a known finding or a grammar exclusion
 }
 
 func qOrderList(rt *rapid.T, refs []qColRef, must []qColRef) string {
@@ -868,10 +869,14 @@ func qGenQuery(rt *rapid.T, tables []*qTable) qQuery {
 		return qQuery{SQL: q, Form: form, Ordered: true, Limit: lim, Tables: []*qTable{t}}
 	case "count":
 		arg := "*"
+		shape := ""
 		if rapid.IntRange(0, 2).Draw(rt, "countcol") == 0 {
 			arg = refs[rapid.IntRange(0, len(refs)-1).Draw(rt, "col")].Expr
+			if t.NPK == 0 {
+				shape = "keyless_count_column"
+			}
 		}
-		return qQuery{SQL: fmt.Sprintf("SELECT COUNT(%s) FROM %s", arg, from), Form: form, Tables: []*qTable{t}}
+		return qQuery{SQL: fmt.Sprintf("SELECT COUNT(%s) FROM %s", arg, from), Form: form, Tables: []*qTable{t}, Shape: shape}
 	case "countpred":
 		return qQuery{SQL: fmt.Sprintf("SELECT COUNT(*) FROM %s%s", from, where(rapid.IntRange(0, 2).Draw(rt, "depth"))), Form: form, Tables: []*qTable{t}}
 	case "group":
